@@ -33,7 +33,7 @@ func constStringArg(c *ssa.Call, i int) (string, bool) {
 
 var ruleEsc = &Rule{
 	Name: "R-ESC", NeedSSA: true,
-	Doc: "every escape sequence the string printer can emit (for strings, keys, variables and like_regex patterns) is decoded by the lexer's escape switch to the same code point: simple escapes map back to the rune they were printed for, \\xNN and \\u forms have a handler; an escape letter the lexer treats literally (\\a → a, \\U → U) is a violation",
+	Doc: "every escape sequence the string printer can emit (for strings, keys, variables and like_regex patterns) is decoded by the lexer's escape switch to the same code point: simple escapes map back to the rune they were printed for, \\xNN and \\u forms have a handler; an escape letter the lexer treats literally (\\a → a, \\U → U) is a violation; the largest code point the printer's branch tests allow where it writes \\xNN is not above the largest the tests allow where the lexer's \\x decoder hands its value on; digits the printer writes itself after \\x / \\u are two / four, each from a table of the sixteen hexadecimal digits, or come from a base-16 formatter",
 	Run: func(p *Prog) *RuleOut {
 		out := newOut("R-ESC")
 		// printer: the quoting function used by quotedString.String
